@@ -205,6 +205,8 @@ def run_check(pid, tier, jobs, *, bounds, assumptions, stubs=(), outside=(), exp
             divergences.append({"kind": "fresh-interpreter-replay-did-not-reproduce", "replay": path, "out": out[-300:]})
     n_unlisted = sum(1 for v in violations if match_known(v, known) is None)
 
+    if hasattr(extra_obligations, "result"):
+        extra_obligations = extra_obligations.result()
     extra_obligations = extra_obligations or []
     eo_fail = [o for o in extra_obligations if o.get("ok") is False]
     eo_inc = [o for o in extra_obligations if o.get("ok") is None]
